@@ -256,9 +256,9 @@ Definition get_tx_pool (o : order_oracle) (byCount : bool) (height maxtx : N) (p
   let eiptxs := select_sort total eiplst (p_valid p) in
   let ord := oo o (filter (fun e => negb (tx_eip (v_tx e))) (map snd (p_valid p))) in
   let all := eiptxs ++ ord in
-  let count0 := N.to_nat maxtx in
-  let byCount := if maxtx =? 0 then false else byCount in
-  let count := if Nat.ltb (length all) count0 || negb byCount then length all else count0 in
+  (* count := int(MaxTxInBlock) (a uint): not positive when 0 or >= 2^63 *)
+  let byCount := if (maxtx =? 0) || (9223372036854775808 <=? maxtx) then false else byCount in
+  let count := if (N.of_nat (length all) <? maxtx) || negb byCount then length all else N.to_nat maxtx in
   let '(valid, old) := gtp_loop all height count [] [] in
   let '(p', ok) :=
     fold_left (fun (acc : pool * bool) (t : tx) =>
